@@ -949,6 +949,12 @@ class Model(Object):
             group_list = [group_list]
 
         for group in group_list:
+            if isinstance(group, str):
+                # a group may be given by its identifier
+                if group not in self.groups:
+                    logger.warning(f"{group!r} not in {self!r}. Ignored.")
+                    continue
+                group = self.groups.get_by_id(group)
             # make sure the group is in the model
             if group.id not in self.groups:
                 logger.warning(f"{group!r} not in {self!r}. Ignored.")
